@@ -31,7 +31,9 @@ def gen_cases(rng, tier):
     n = 1200 if tier == 'quick' else 10000
     for i in range(n):
         k = i % 4
-        if k == 0:
+        if i % 8 == 5:
+            yield {'tag': 'factory', 'script': g.factory_script()}
+        elif k == 0:
             yield {'tag': 'ext', 'script': g.ext_script()}
         elif k == 1:
             yield {'tag': 'random-props', 'script': g.script(depth=rng.choice([1, 2, 3]), kind='props')}
